@@ -30,6 +30,8 @@ def run(ctx, chk):
     chk.rule("E2", "listener ids: reserved range rejected; accepted ids fit the dispatcher's 16-bit event id")
     chk.rule("E3", "ring id flows unchanged to add/delete; first matching thread only; dispatcher argument order")
     run_on(fb, chk)
+    from . import xlist
+    xlist.apply("C17", fb, chk)
     n = lambda r: len([i for i in chk.instances if i[0] == r])
     chk.floor("E2", n("E2"), 3)
 
